@@ -7,7 +7,7 @@ import glob, json, os, re, shutil
 CONF = {}
 for f in sorted(glob.glob("/tmp/wt/confirm/batch*.txt")):
     for line in open(f):
-        m = re.match(r"(C\d\d-\d): suite-with-patch: (\d+) passed (\d+) failed \| demo WITH patch: (.*?) \| demo WITHOUT patch: (.*)$", line.strip())
+        m = re.match(r"(C\d\d[a-z]?-\d): suite-with-patch: (\d+) passed (\d+) failed \| demo WITH patch: (.*?) \| demo WITHOUT patch: (.*)$", line.strip())
         if m:
             CONF[m.group(1)] = {"suite_passed": int(m.group(2)), "suite_failed": int(m.group(3)),
                                 "demo_with_patch": m.group(4).strip(), "demo_without_patch": m.group(5).strip()}
@@ -17,7 +17,7 @@ for logf in ["/tmp/wt/confirm/checks_batch12.txt", "/tmp/wt/confirm/checks.txt"]
     if not os.path.exists(logf):
         continue
     for line in open(logf):
-        m = re.match(r"(C\d\d-\d): (.*)$", line.rstrip())
+        m = re.match(r"(C\d\d[a-z]?-\d): (.*)$", line.rstrip())
         if m:
             cur = m.group(1)
             CHK.setdefault(cur, {"checks": {}, "what": []})
@@ -31,8 +31,9 @@ for logf in ["/tmp/wt/confirm/checks_batch12.txt", "/tmp/wt/confirm/checks.txt"]
 
 rows = []
 for label in sorted(set(CONF) | set(CHK)):
-    prop, n = label.split("-")
-    src = "/tmp/wt/%s.out" % prop
+    stem, n = label.split("-")
+    prop = stem[:3]
+    src = "/tmp/wt/%s.out" % stem
     c = CONF.get(label)
     k = CHK.get(label, {"checks": {}, "what": []})
     confirmed = bool(c) and c["suite_failed"] == 0 and c["suite_passed"] > 800 and "FAILED" in c["demo_with_patch"] and "ok." in c["demo_without_patch"]
